@@ -228,7 +228,8 @@ VARIANTS["pure-dbg"] = dict(PURE, mi_flags=["-O1", "-g", "-DMI_DEBUG=3", "-w"], 
 CHECKS["C16"] = {
     "custom_run": True, "level": "exploration",
     "rule": "cases = inputs of the size-class and address arithmetic: EXHAUSTIVE over all request sizes 0..2*MI_MEDIUM_OBJ_SIZE_MAX (bin size >= n, bins monotone, waste <= 25% above 64 bytes, "
-            "mi_good_size >= n, idempotent and equal to mi_usable_size(mi_malloc(n)) for all n <= 64 KiB by 65 553 real allocations), all slice counts 0..512 (span bin monotone, in range, "
+            "mi_good_size >= n, idempotent and equal to mi_usable_size(mi_malloc(n)) for all n <= 64 KiB by 65 553 real allocations on a fresh heap, and again under allocation histories: descending sweep with one live block "
+            "per class, every class first used right after the next larger one, seeded random orders with a random live set), all slice counts 0..512 (span bin monotone, in range, "
             "queue capacity >= count), fast division for every bin size and multiples of 8 up to 64 KiB x every block index of a page x remainders {0,1,d-1}, and for every bin size blocks on 3 "
             "pages (+ large and huge pages of 2..700 slices) x interior offsets {0,1,15,bs/2,4096,bs-1} and, for large pages, the slice boundaries {1,2,63,64,127,128,200,254,255} x {-8,0,+100} up to MI_BLOCK_ALIGNMENT_MAX into the block: _mi_ptr_segment/_mi_ptr_page/_mi_page_ptr_unalign must recover the page and the block start; "
             "GENERATED (seeded, around powers of two, SIZE_MAX, PTRDIFF_MAX): _mi_align_up/_mi_align_down/_mi_divide_up/_mi_clamp/_mi_wsize_from_size/mi_mul_overflow/mi_count_size_overflow/"
@@ -246,7 +247,7 @@ VARIANTS["opts-rel"] = dict(OPTS, mi_flags=["-O2", "-DNDEBUG", "-DMI_BUILD_RELEA
 CHECKS["C20"] = {
     "custom_run": True, "level": "exploration",
     "rule": "cases = (a) option index (all 37) x name spelling (upper/lower/mixed, legacy name) x value: exhaustive small forms (every boolean spelling, digits 0..999 x unit spellings K/M/G/T "
-            "with iB/B and lower case) and generated values: well-formed per the grammar bool | [+-]?digits | digits(K|M|G|T)(iB|B)? with up to 25 digits (overflow of long/size_t), malformed by "
+            "with iB/B and lower case) and generated values: well-formed per the grammar bool | [+-]?digits | digits(K|M|G|T)(iB|B)? with up to 25 digits (overflow of long/size_t) and, one time in six, left-padded with zeros to 62/63/64 characters (64 = the longest value that is read completely), malformed by "
             "mutation (inserted/replaced bytes incl. '=', non-ASCII, 0x.., words, 65-8000 character values), environments of up to 10 010 entries; the option is reset to {default, UNINIT}, "
             "environ is pointed at the generated vector and mi_option_get is called; reference parser: booleans -> 0/1, integers -> strtol semantics with saturation, size options in KiB (unit "
             "applied, bytes rounded up to KiB, saturated at MI_MAX_ALLOC_SIZE/KiB / LONG_MAX); malformed -> value == compiled default and the option is not marked as set; (b) mi_option_set/get/"
